@@ -15,6 +15,88 @@ def history(rng):
     return ins, outs, dirs
 
 
+def mt_backpressure(ctx):
+    """directed family: worker threads, many job-sized sections pushed while the caller gives no (or a few bytes of) output room, then the
+    output drained through tiny rooms.  The ring of job descriptors fills (1 << (highbit(nbWorkers + 2) + 1) slots); what is accepted while
+    nothing is emitted is tied to Model/MTBack.lean (`mtback`), and the emitted bytes must decode (one-shot, streaming limited to the declared
+    window, and - for two of the lines - the independent Lean decoder) to exactly the input."""
+    rng = zv.Rng(ctx.seed * 7919 + 20202)
+    exe = build.link("zvh_mtstorm", ["zvh_mtstorm.c"], "plain")
+    base = datagen.text(rng, 60000) + datagen.randbytes(rng, 15000) + datagen.mixed(rng, 80000)
+    T0 = 524288
+    plan = []      # (nbWorkers, T, how much to withhold: "all" | "part" | "none")
+    for nbw in ([1, 1, 2, 3, 4, 1, 2] if ctx.quick() else [1, 2, 3, 4, 5, 6] * 5):
+        plan.append((nbw, T0, "all"))
+    plan += [(1, 2 * T0, "all"), (rng.choice([1, 2]), T0, "part"), (rng.choice([1, 2, 3, 4]), T0, "none")]
+    ml = ["mtback %d %d %d %d" % (nbw, T, 1 << 40, T) for nbw, T, w in plan]
+    mo = frames.model_lines(ml)
+    lines, meta = [], []
+    for k, ((nbw, T, w), m) in enumerate(zip(plan, mo)):
+        slots = int(m.split("slots=")[1].split()[0]); bound = int(m.split("bound=")[1].split()[0])
+        total = bound + rng.randint(T // 4, T + 200000)       # the section after the last one the ring can take is completed, and more follows
+        piece = rng.choice([100000, T, 1 << 20, 65536, 4096, 300001])
+        p = {100: rng.choice([1, 1, 1, 3, -1]), 400: nbw, 401: T}
+        if rng.random() < 0.4: p[201] = 1
+        if rng.random() < 0.3: p[9000] = 1
+        if rng.random() < 0.3: p[101] = rng.choice([17, 18, 19, 20])
+        if rng.random() < 0.2:
+            p[402] = rng.choice([1, 5, 9])
+            if p[402] == 9: p[101] = rng.choice([17, 18, 19])     # the overlap (here: a whole window) must stay within one section, or the section size is raised
+        trickle = rng.choice(["0", "0", "0", "0,0,0,1", "0,3"]) if k >= 3 else "0"
+        hold = bound if w == "all" else (bound - T - rng.randint(1, T) if w == "part" else 0)
+        drain = rng.choice(["65536", "1000000", "517,3", "1,4096", "131072,0,0", "4096"])
+        tail = rng.choice(["c", "c", "cf", "ccf", "f"])
+        lines.append("storm %s %s %d %d %s %d %s %s%s" % (frames.pstr(p), base.hex(), total, piece, trickle, hold, drain, tail, " hex" if k in (0, 1) else ""))
+        meta.append(dict(nbw=nbw, T=T, slots=slots, bound=bound, total=total, hold=hold, trickle=trickle, p=p, piece=piece))
+    mm = frames.model_lines(["mtback %d %d %d %d" % (m["nbw"], m["T"], m["total"], m["piece"]) for m in meta])
+    from concurrent.futures import ThreadPoolExecutor
+    with ThreadPoolExecutor(max_workers=10) as ex:
+        outs = list(ex.map(lambda ln: frames.run_lines(exe, [ln], timeout=120), lines))
+    ev, lean_jobs = 0, []
+    for ln, m, mline, (rc, o, err) in zip(lines, meta, mm, outs):
+        ev += 1
+        short = " ".join(ln.split()[:2]) + " <base> " + " ".join(ln.split()[3:])
+        res = o[0] if o else "<no output rc=%s>" % rc
+        rep = dict(kind="monitor", op=ln[:400000], result=res[:400], model=mline, stderr=(err or "")[-500:])
+        desc = "workers=%d, %d descriptors, sections of %d bytes, %d bytes fed in %d-byte writes with output rooms %s while %d bytes are withheld" % (
+            m["nbw"], m["slots"], m["T"], m["total"], m["piece"], m["trickle"], m["hold"])
+        if res.startswith("err"):
+            if "parameter" not in res:
+                ctx.violation("multithreaded streaming compression failed under back-pressure (%s): %s" % (desc, res[:120]), rep)
+            continue
+        if not res.startswith("in="):
+            ctx.violation("multithreaded streaming compression under back-pressure did not finish (a call never returned, or the process died) (%s): %s" % (desc, res[:80]), rep)
+            continue
+        kv = dict(t.split("=", 1) for t in res.split() if "=" in t)
+        if kv["rt"] != "ok":
+            ctx.violation("bytes emitted by multithreaded streaming compression under back-pressure do not decode to the input consumed (%s): ZSTD_decompress -> %s" % (desc, kv["rt"]), rep)
+        elif kv["sd"] != "ok":
+            ctx.violation("frame emitted under back-pressure does not stream-decode within its declared window to the input (%s): %s" % (desc, kv["sd"]), rep)
+        if m["p"].get(9000) and kv["fcs"] != str(m["total"]):
+            ctx.violation("pledged frame emitted under back-pressure announces content size %s for %d bytes (%s)" % (kv["fcs"], m["total"], desc), rep)
+        # tie with Model/MTBack.lean: what the ring lets in while nothing comes out
+        if m["hold"] and int(kv["acc1"]) != m["hold"]:
+            ctx.violation("the compressor stopped accepting input after %s bytes although the job ring (%d descriptors) and the section buffer have room for %d (%s)" % (kv["acc1"], m["slots"], m["hold"], desc),
+                          dict(rep, kind="tie", correspondence="MT.Back.offer vs ZSTDMT_compressStream_generic"))
+        if m["hold"] == m["bound"] and kv["emit1"] == "0":
+            ev += 1
+            macc = int(mline.split("accepted=")[1].split()[0])
+            if macc != m["bound"] or int(kv["over"]) != 0:
+                ctx.violation("%d bytes accepted while not one byte had been emitted; the model of the job ring allows %d ((descriptors + 1) sections): a job was created on a descriptor still in use (%s)" % (
+                    int(kv["acc1"]) + int(kv["over"]), macc, desc), dict(rep, kind="tie", correspondence="MT.Back.offer / MT.canCreate vs ZSTDMT_createCompressionJob"))
+        if "frame" in kv and kv["rt"] == "ok":
+            lean_jobs.append((ln, m, kv))
+    with ThreadPoolExecutor(max_workers=4) as ex:
+        lres = list(ex.map(lambda j: frames.model_lines(["dec %d %s" % (j[1]["total"], j[2]["frame"])], timeout=600)[0], lean_jobs))
+    for (ln, m, kv), lr in zip(lean_jobs, lres):
+        ev += 1
+        if lr != "ok %d %s" % (m["total"], kv["in"]):
+            ctx.violation("independent decoder disagrees on a frame emitted by multithreaded compression under back-pressure: %r, expected ok %d %s" % (lr, m["total"], kv["in"]),
+                          dict(kind="tie", op=ln[:400000], correspondence="Model/Frame vs ZSTD_decompress"), no_input=True)
+    return dict(evaluations=ev, histories=len(lines), lean_decoded=len(lean_jobs),
+                sample=dict(op=" ".join(lines[0].split()[:2]) + " <base> " + " ".join(lines[0].split()[3:9]), result=(outs[0][1][0][:200] if outs[0][1] else ""), model=mm[0]))
+
+
 def correspondence(ctx):
     rng = ctx.rng
     exe = frames.harness()
@@ -165,7 +247,10 @@ def correspondence(ctx):
     for v in ctx.violations[nb:]:
         v["replay"] = dict(v.get("replay") or {}, ent="cstream")
     ev += csr.get("evaluations", 0)
-    return dict(evaluations=ev, dstream_model_tie=dsr, cstream_model_tie=csr, distinct_nontrivial=len({ln[:200] + str(len(ln)) for ln in lines}),
+    # worker threads: a producer running ahead of a consumer that gives no output room (the ring of job descriptors fills), then tiny drains
+    mtb = mt_backpressure(ctx)
+    ev += mtb.get("evaluations", 0)
+    return dict(evaluations=ev, mt_backpressure=mtb, dstream_model_tie=dsr, cstream_model_tie=csr, distinct_nontrivial=len({ln[:200] + str(len(ln)) for ln in lines}),
                 rule="compression: inputs x parameter vectors x call histories (chunk lists with 1-byte and block-straddling sizes, output capacities down to 1 byte, continue/flush/end strings, stable-in with several small "
                      "continue calls, stable-out, dictionaries); decompression: compositions of the emitted frames and skippable frames under random input/output segmentations (0- and 1-byte calls), each observed call checked "
                      "against the spec LTS (Stream.dlegalNum) and the whole output against single-call decoding; distinct = distinct call lines",
@@ -179,6 +264,6 @@ def replay(ctx, data):
     if data.get("ent") == "cstream":
         import ent_cstream
         return ent_cstream.replay(ctx, data)
-    exe = frames.harness()
+    exe = build.link("zvh_mtstorm", ["zvh_mtstorm.c"], "plain") if data["op"].startswith("storm ") else frames.harness()
     rc, out, err = frames.run_lines(exe, [data["op"]])
     return dict(violates=True, note="re-executed; compare with the description", result=[o[:300] for o in out])
